@@ -161,6 +161,33 @@ func genC14(t *rapid.T) C14Case {
 			c.Toks = append(c.Toks, Tok{Flag: "?", Val: rapid.SampledFrom([]string{"-x", "-Z", "--foo", "-aa", "-FF=uid=0", "-d"}).Draw(t, "unk")})
 		}
 	}
+	// white space that is none for a shell: a word of a line ends at a blank, a tab or a newline and nowhere else.
+	// Carriage return, form feed, vertical tab and the Unicode spaces are part of the word they stand in (and a word
+	// of their own between blanks). Such a character is put in front of, behind or into some values, and strewn in
+	// as a positional word.
+	if rapid.IntRange(0, 3).Draw(t, "oddspace") == 0 {
+		odd := []string{"\u00a0", "\r", "\u3000", "\f", "\u0085", "\v", "\u2028", "\u2003", "\u1680"}
+		for i := range c.Toks {
+			tk := &c.Toks[i]
+			if !(tk.Flag == "w" || tk.Flag == "F" || tk.Flag == "p" || tk.Flag == "k" || tk.Flag == "S" || tk.Flag == "a") || rapid.IntRange(0, 2).Draw(t, "oddhere") != 0 {
+				continue
+			}
+			ws := rapid.SampledFrom(odd).Draw(t, "oddchar")
+			switch rapid.IntRange(0, 3).Draw(t, "oddpos") {
+			case 0, 1:
+				tk.Val += ws
+			case 2:
+				tk.Val = ws + tk.Val
+			default:
+				tk.Val = tk.Val[:len(tk.Val)/2] + ws + tk.Val[len(tk.Val)/2:]
+			}
+		}
+		if rapid.IntRange(0, 3).Draw(t, "oddword") == 0 {
+			at := rapid.IntRange(0, len(c.Toks)).Draw(t, "oddwordat")
+			w := Tok{Flag: "", Val: rapid.SampledFrom(odd).Draw(t, "oddwordchar")}
+			c.Toks = append(c.Toks[:at], append([]Tok{w}, c.Toks[at:]...)...)
+		}
+	}
 	if rapid.IntRange(0, 2).Draw(t, "shuffle") == 0 {
 		c.Toks = rapid.Permutation(c.Toks).Draw(t, "perm")
 	}
@@ -431,6 +458,9 @@ func propC14(c C14Case) error {
 			}
 			if strings.ContainsAny(f.RHS, " =<>&!") {
 				special = true
+			}
+			if strings.ContainsAny(f.RHS, "\u00a0\r\u3000\f\u0085\v\u2028\u2003\u1680") {
+				hC14.Class("accepted-with-white-space-that-is-none-for-a-shell-in-a-value")
 			}
 		}
 		if want := splitList(sArgs); !sameList(v.Syscalls, want) {
